@@ -61,8 +61,11 @@ type advCase struct {
 	WriteErrUnicast bool
 	// WriteErrMulticast restricts them to the all-nodes destination.
 	WriteErrMulticast bool
-	Seed              time.Duration
-	Tail              time.Duration // observation time after run_return
+	// WriteErrInitGen (when > 0): instead, the first write — the initial RA — of
+	// every connection from that generation on fails with WriteErrKind.
+	WriteErrInitGen int
+	Seed            time.Duration
+	Tail            time.Duration // observation time after run_return
 	// StopHook places the stop request inside an operation: "fwd" = inside the
 	// first forwarding read, "write" = inside the first socket write, that begins
 	// at or after StopHookAfter; the request is made StopHookDelay later.
@@ -220,7 +223,16 @@ func advRun(t *testing.T, c *advCase) *advResult {
 				default:
 				}
 			}
-			if c.WriteErrKind != "" && cn.Gen == 1 {
+			if c.WriteErrKind != "" && c.WriteErrInitGen > 0 {
+				if cn.Gen >= c.WriteErrInitGen {
+					cn.WriteErr = func(n int, _ netip.Addr) error {
+						if n == 0 {
+							return vErrOf(c.WriteErrKind)
+						}
+						return nil
+					}
+				}
+			} else if c.WriteErrKind != "" && cn.Gen == 1 {
 				first := 1
 				if c.UnicastOnly {
 					first = 0
